@@ -196,6 +196,23 @@ mut("upblk_order_from_set", "pymtl3/passes/rtlir/util/utility.py",
     "  return [ x for x in m.get_update_block_order() if x in upblks ]", "  return list( upblks )", ["C13"])
 
 
+mut("c15_revert_late_signals", "pymtl3/dsl/Component.py",
+    "    top._dsl.all_signals       |= late_signals\n    top._dsl.all_named_objects |= late_signals\n", "    pass\n", ["C15"])
+mut("c15_revert_double_buffer", "pymtl3/dsl/Component.py",
+    "      if blk in parent._dsl.update_ff:\n        written._dsl.needs_double_buffer = True\n", "", ["C15"])
+mut("c15_revert_wr_u", "pymtl3/dsl/ComponentLevel2.py",
+    "        s._dsl.all_WR_U_constraints[k] -= m._dsl.WR_U_constraints[k]", "        s._dsl.all_WR_U_constraints[k] -= m._dsl.RD_U_constraints[k]", ["C15"])
+mut("c15_revert_const_adjacency", "pymtl3/dsl/Component.py",
+    "      for y in removed_consts:\n        top._dsl.all_adjacency.pop( y, None )\n", "", ["C15"])
+mut("c15_keep_removed_signals", "pymtl3/dsl/Component.py",
+    "      top._dsl.all_signals       -= removed_signals\n", "      pass\n", ["C15"])
+mut("c15_lose_saved_reads", "pymtl3/dsl/Component.py",
+    "    for blk, obj_name in provided_upblk_reads:\n      parent._dsl.upblk_reads[blk].add( eval(obj_name) )\n",
+    "    for blk, obj_name in provided_upblk_reads[1:]:\n      parent._dsl.upblk_reads[blk].add( eval(obj_name) )\n", ["C15"])
+mut("c15_update_ff_not_uncollected", "pymtl3/dsl/ComponentLevel2.py",
+    "      s._dsl.all_update_ff -= m._dsl.update_ff\n", "      pass\n", ["C15"])
+
+
 def load_extra():
   p = os.path.join(VERIF, "tools", "mutants_extra.json")
   if os.path.exists(p):
